@@ -8,6 +8,12 @@ Open Scope N_scope.
 Open Scope string_scope.
 
 (** the hypotheses of the rule theorems hold of the example *)
+Example ex_schema_args_ok : schema_args_ok ex_schema = true.
+Proof. vm_compute. reflexivity. Qed.
+Example ex_schema_impls_ok : schema_impls_ok ex_schema = true.
+Proof. vm_compute. reflexivity. Qed.
+Example ex_schema_defaults_ok : schema_defaults_ok ex_schema = true.
+Proof. vm_compute. reflexivity. Qed.
 Example ex_schema_ok : schema_ok ex_schema = true.
 Proof. vm_compute. reflexivity. Qed.
 Example ex_fields_defined : fields_defined ex_schema [] ex_valid = true.
